@@ -250,6 +250,12 @@ fn run_case(line: &str) -> String {
                     if let Some((_, fd)) = fds.borrow().iter().find(|(i, _)| *i == id) {
                         let _ = rustix::io::write(&**fd, &1u64.to_ne_bytes());
                     }
+                } else {
+                    // no current child (removed / nothing yet): the fds of every child ever made become ready - a removed child that is
+                    // still registered (its unregistration waits for the reregistration) must not be forwarded
+                    for (_, fd) in fds.borrow().iter() {
+                        let _ = rustix::io::write(&**fd, &1u64.to_ne_bytes());
+                    }
                 }
                 let before = log.borrow().len();
                 let r = event_loop.dispatch(Some(Duration::ZERO), &mut ());
